@@ -490,6 +490,10 @@ fn node_json(n: &Arc<Node>) -> Value {
         Some(p) => json!(p.id()),
         None => json!("nil"),
     };
+    let parent_raw = match n.parent.read().unwrap().upgrade() {
+        Some(p) => json!(p.id()),
+        None => json!("nil"),
+    };
     // a node reached through a `next` link hangs off its predecessor
     let follow = match n.next().upgrade() {
         Some(next) if next.level == n.level && next.prev().upgrade().map(|p| p.id == n.id).unwrap_or(false) => {
@@ -508,6 +512,7 @@ fn node_json(n: &Arc<Node>) -> Value {
         "next": next,
         "prev": prev,
         "parent": parent,
+        "parent_raw": parent_raw,
         "children": kids,
         "follow": follow,
         "content": serde_json::to_value(&n.content).unwrap_or(Value::Null),
